@@ -285,3 +285,55 @@ def check_mesh_rules(case, rec):
 
 SUBS.append(Sub("mesh_rules", check_mesh_rules, enum=enum_mesh_rules,
                 doc="every documented rule of each shape requested by point count on an affine mesh of each element type"))
+
+
+# ------------------------------------------------------------------------------------------
+# (added) the arrays a rule hands out belong to the caller: scaling the weights or remapping the points of one query in place
+# (w *= thickness, points moved to another parametrisation) must not change what the next query of the same rule returns
+
+
+def enum_returned_arrays(tier):
+    for et in gm.SEG + gm.T2D + gm.T3D:
+        for mt in ("rigi", "mass"):
+            yield dict(elemType=et, matrixType=mt)
+
+
+def check_returned_arrays(case, rec):
+    et, mt = ElemType(case["elemType"]), MatrixType(case["matrixType"])
+    sig = dict(elemType=case["elemType"], matrixType=case["matrixType"])
+    rec.label("alias:" + case["elemType"])
+    g0 = Gauss(et, mt)
+    c0, w0 = np.array(g0.coord, float), np.array(g0.weights, float)
+    shape = orc.shape_of(case["elemType"])
+    r = (dict(p1=[0.0, 0.0, 0.0], d=[2.0, 0.0, 0.0], elemType=case["elemType"], n=2, perm=None) if shape == "SEG" else None)
+    group = None
+    if r is None:
+        d3 = case["elemType"] in gm.T3D
+        rr = dict(verts=[[0.0, 0.0], [2.0, 0.0], [2.5, 1.0], [0.5, 1.0]], h=1.0, elemType=case["elemType"], organised=True,
+                  extrude=[0.0, 0.0, 1.0] if d3 else None, layers=1 if d3 else 0, A=None, b=None, perm=None, orphans=0)
+        group = gm.main_groups(gm.build(rr))[0]
+    sources = [("Gauss(...).weights / .coord", lambda: (Gauss(et, mt).coord, Gauss(et, mt).weights))]
+    if group is not None:
+        sources.append(("groupElem.Get_gauss / Get_weight_pg", lambda: (group.Get_gauss(mt).coord, group.Get_weight_pg(mt))))
+    for what, get in sources:
+        c, w = get()
+        try:
+            w *= 0.1
+            c += 7.0
+        except ValueError:
+            rec.label("alias:read_only_arrays")  # read-only arrays are a legitimate way to protect the tables
+            continue
+        g1 = Gauss(et, mt)
+        rec.require(np.array_equal(np.asarray(g1.weights, float), w0) and np.array_equal(np.asarray(g1.coord, float), c0),
+                    "returned_arrays_independent", f"{case['elemType']} {case['matrixType']}: after the arrays returned by {what} were "
+                    f"modified in place, the next query of the rule gives sum(w)={float(np.sum(g1.weights))!r} (was {float(w0.sum())!r})", **sig)
+    if group is not None:
+        meas = float(np.sum(group.Integrate_e(lambda x, y, z: 1.0 + 0 * x, mt)))
+        ex = abs(gm.exact_integral(rr, lambda x, y, z: 1.0 + 0 * x, 0))
+        rec.close(meas - ex, ex, TOL * 10, "measure_after_in_place_use", f"{case['elemType']}: measure {meas!r} vs {ex!r} after the caller "
+                  "modified the arrays of an earlier query", **sig)
+    rec.nontrivial(True)
+
+
+SUBS.append(Sub("returned_arrays", check_returned_arrays, enum=enum_returned_arrays,
+                doc="in-place use of the arrays returned by a rule does not change later queries"))
